@@ -106,11 +106,11 @@ class SArr:
     def __len__(self):
         return self.c.shape[0]
 
-    def copy(self):
-        return SArr(self.c.copy(), self.dtype)
+    def copy(self, order="C"):
+        return SArr(self.c.copy(order=order), self.dtype)
 
-    def astype(self, dt, copy=True):
-        c = self.c.copy()
+    def astype(self, dt, copy=True, order="K"):
+        c = self.c.copy(order=order)  # (numpy: astype keeps the memory layout of its input, ndarray.copy() does not)
         if narrow(dt):
             for idx in np.ndindex(*c.shape):
                 c[idx] = wrap_to(c[idx], dt)
@@ -125,10 +125,9 @@ class SArr:
     def reshape(self, *shape):
         if len(shape) == 1 and isinstance(shape[0], (tuple, list)):
             shape = tuple(shape[0])
-        r = self.c.reshape(shape)
-        if r.size and not np.shares_memory(r, self.c):
-            raise Unsupported("reshape that copies")
-        return SArr(r, self.dtype)
+        # numpy semantics carried by the object array itself: a view where the memory layout allows one, else a COPY
+        # (stores into the result then do not reach this array)
+        return SArr(self.c.reshape(shape), self.dtype)
 
     def compute(self):
         return self
@@ -530,8 +529,8 @@ def _ones_like(a, dtype=None, **kw):
 
 
 @implements(np.copy)
-def _copy(a, **kw):
-    return a.copy()
+def _copy(a, order="K", **kw):
+    return a.copy(order=order)
 
 
 @implements(np.shape)
